@@ -7,6 +7,7 @@
 #include "prng.hpp"
 
 #include <cstdint>
+#include <functional>
 #include <map>
 #include <string>
 #include <vector>
@@ -132,6 +133,13 @@ struct Ctx
     std::uint64_t poison_mask = 0;
     bool zero_instead = false;         // twin run: poisoned calls return zero and add nothing
     std::uint64_t user_stop = ~0ULL;   // scripted user callback returns false at this nresults
+    // unusual but legal user code: the integrand runs a small integration of its own (same template
+    // instantiation) on some of its calls
+    bool nested = false;
+    bool in_nested = false;
+    std::uint64_t nested_done = 0;
+    void (*nested_hook)(void*) = nullptr;
+    void* nested_arg = nullptr;
 
     void reset_logs()
     {
